@@ -2,7 +2,7 @@
 import common, enc, gen, sweep, encprop, impl
 
 TOP = ['theories/Props/C06.v', 'theories/Tie/TieTables.v', 'theories/Tie/TieFuns.v', 'theories/Tie/TieMaskArg.v', 'theories/Tie/TieMask.v',
-       'theories/Tie/TieMaskScores.v', 'theories/Tie/TieMaskFull.v']
+       'theories/Tie/TieMaskScores.v', 'theories/Tie/TieMaskFull.v', 'theories/Tie/TieChain.v']
 WANT = ('decode', 'bestmask')
 RULE = ('symbols of every version class with automatic mask: all candidates are recomputed from the implementation matrix by '
         'unmask/remask with ISO Table 10 and scored with an independent ISO 7.8.3 scorer (extracted), the lowest-numbered optimum '
